@@ -927,7 +927,7 @@ func (b *ASTBuilder) buildUnaryOp(tsNode *sitter.Node) *Node {
 		node.Op = b.getNodeText(operator)
 	}
 
-	if operand := b.getChildByFieldName(tsNode, "operand"); operand != nil {
+	if operand := b.getChildByFieldName(tsNode, "argument"); operand != nil {
 		node.Value = b.buildNode(operand)
 	}
 
@@ -1079,7 +1079,7 @@ func (b *ASTBuilder) buildSubscript(tsNode *sitter.Node) *Node {
 	node := NewNode(NodeSubscript)
 	node.Location = b.getLocation(tsNode)
 
-	if value := b.getChildByFieldName(tsNode, "object"); value != nil {
+	if value := b.getChildByFieldName(tsNode, "value"); value != nil {
 		node.Value = b.buildNode(value)
 	}
 
